@@ -156,6 +156,41 @@ func hexShort(b []byte) string {
 }
 
 func init() {
+	// ---- length / cache-id headers of atoms beyond 255, followed by enough bytes to satisfy them ------
+	harn.Register(harn.Scenario{Property: "C16", Name: "edf-overlong-atom-headers", Run: func(c *harn.Ctx) *harn.Result {
+		r := harn.NewResult("enum")
+		o := &decodeOracle{r: r}
+		long := gen.Atom(str(255))
+		vals := []any{long, gen.PID{Node: long, ID: 1, Creation: 1}, gen.ProcessID{Name: long, Node: "n@h"}, gen.ProcessID{Name: "nm", Node: long},
+			gen.Alias{Node: long, Creation: 1, ID: [3]uint64{1, 2, 3}}, gen.Event{Name: long, Node: "n@h"}, gen.Event{Name: "ev", Node: long},
+			gen.Ref{Node: long, Creation: 1, ID: [3]uint64{1, 2, 3}}, []gen.Atom{long, "x"}, map[gen.Atom]int{long: 1}, RTInner{X: 1, Y: long}}
+		pad := []byte(str(70000))
+		idx := 0
+		for _, v := range vals {
+			b := lib.TakeBuffer()
+			if err := safeEncode(v, b, edf.Options{}); err != nil {
+				r.Fail("harness", "cannot encode %T: %v", v, err)
+				continue
+			}
+			enc := append([]byte{}, b.B...)
+			for pos := 0; pos+2 <= len(enc); pos++ {
+				if enc[pos] != 0 || enc[pos+1] != 255 {
+					continue
+				}
+				for _, l := range []uint16{256, 257, 300, 4096, 32768, 65535} {
+					m := append([]byte{}, enc...)
+					binary.BigEndian.PutUint16(m[pos:], l)
+					m = append(m, pad...)
+					idx++
+					announce(idx, fmt.Sprintf("%T header %d", v, l))
+					o.try(idx, fmt.Sprintf("%T-with-header-%d", v, l), m)
+				}
+			}
+		}
+		r.States, r.Transitions, r.Distinct = r.Executions, r.Executions, r.Executions
+		return r
+	}})
+
 	// ---- EDF decoder: truncations, byte substitutions, inflated 4/2-byte fields ---------------------
 	for shard := 0; shard < 16; shard++ {
 		shard := shard
